@@ -578,7 +578,7 @@ func (e *c20Env) classify(c *Case, rootName string, nodes []*c20Node) {
 }
 
 func runC20(r *Run) {
-	r.Rule = "random directory trees materialised on disk (hooks-directory names incl. lib/.hooks/.git, depth <= 4, 0-7 entries per directory from pools of 32 file names and 18 directory names so that names collide across directories; modes from a biased pool plus uniformly random 9-bit modes incl. group/other-only execute bits; excluded extensions, hidden files, lib/hidden directories at any depth, byte-order traps such as a.sh vs a/b); every file is a bash script that logs its invocation and prints a valid config, an invalid one or fails (exit 3 / valid output then exit 1 / kill -9). Configurations come from a catalogue with FIXED verdicts (calibrated once on the unchanged tree, never asked of the code under test): 71 invalid documents with one defect each (bad crontab of several kinds, unknown field, wrong type, unsupported configVersion, malformed label/field/name selector, unknown or ambiguous includeSnapshotsFrom, ambiguous group, bad settings, admission/conversion defects; 20 of them in the legacy v0 format without configVersion) and 14 valid ones, each printed as JSON and as YAML, 10 malformed outputs, plus generated schedule lists (v0 or v1, JSON or YAML, 1-4 entries, crontabs from calibrated valid/invalid pools). The hooks directory is given in one of five spellings (canonical, trailing slash, /./, name/../name, relative to the current directory) to the real RequireExistingDirectory (as bootstrap.go does), whose answer goes to the real RecursiveGetExecutablePaths, then real hook.Manager.Init. 35% of the random cases perform 2-3 starts in the same process: between starts 1-3 edits (file added / removed / chmod +x / chmod -x / rewritten, sub-directory added / removed; 75% strictly below a sub-directory) or a rebuild of the whole tree at the same path, optionally with the modification time of the hooks directory or of every directory put back; each start has its own tree line and oracles. Fixed-index blocks: every catalogue entry alone between two good hooks (10000+, 20000+), generated schedule lists (30000+). Thorough adds the exhaustive scope {3 root names} x {directory chains of length 0-2 over s/lib/.g} x {8 file names} x {5 modes} plus all 512 modes for one file. Non-trivial: >= 2 files of which some but not all carry an execute bit, or a non-default hooks-directory name with an executable file, or a catalogue / multi-start corpus case; distinct = distinct tree lines."
+	r.Rule = "random directory trees materialised on disk (hooks-directory names incl. lib/.hooks/.git, depth <= 4, 0-7 entries per directory from pools of 32 file names and 18 directory names so that names collide across directories; modes from a biased pool plus uniformly random 9-bit modes incl. group/other-only execute bits; excluded extensions, hidden files, lib/hidden directories at any depth, byte-order traps such as a.sh vs a/b); 9 % of the files are symbolic links to an executable script outside the hooks directory (absolute or relative link text; Lstat shows a non-directory with mode 0777), corpus: the ConfigMap-volume layout hook.sh -> ..data/hook.sh, ..data -> ..<timestamp>/; every file is a bash script that logs its invocation and prints a valid config, an invalid one or whose run does not complete successfully in one of 10 ways (exit 3 / 126 without output, exit 1 / 255 after a complete valid configuration, killed by SIGKILL without output, killed by SIGKILL / SIGTERM / SIGSEGV / SIGABRT / SIGHUP after a complete valid configuration). The last path element of the manager's TempDir is chosen per case: shell-operator, tmp, the name of a visible non-lib sub-directory of the tree (50 %), of a file of the tree, or of the hooks directory itself (the pools of directory names contain tmp, shell-operator, hooks). Configurations come from a catalogue with FIXED verdicts (calibrated once on the unchanged tree, never asked of the code under test): 71 invalid documents with one defect each (bad crontab of several kinds, unknown field, wrong type, unsupported configVersion, malformed label/field/name selector, unknown or ambiguous includeSnapshotsFrom, ambiguous group, bad settings, admission/conversion defects; 20 of them in the legacy v0 format without configVersion) and 14 valid ones, each printed as JSON and as YAML, 10 malformed outputs, plus generated schedule lists (v0 or v1, JSON or YAML, 1-4 entries, crontabs from calibrated valid/invalid pools). The hooks directory is given in one of five spellings (canonical, trailing slash, /./, name/../name, relative to the current directory) to the real RequireExistingDirectory (as bootstrap.go does), whose answer goes to the real RecursiveGetExecutablePaths, then real hook.Manager.Init. 35% of the random cases perform 2-3 starts in the same process: between starts 1-3 edits (file added / removed / chmod +x / chmod -x / rewritten, sub-directory added / removed; 75% strictly below a sub-directory) or a rebuild of the whole tree at the same path, optionally with the modification time of the hooks directory or of every directory put back; each start has its own tree line and oracles. Fixed-index blocks: every catalogue entry alone between two good hooks (10000+, 20000+), generated schedule lists (30000+). Thorough adds the exhaustive scope {3 root names} x {directory chains of length 0-2 over s/lib/.g} x {8 file names} x {5 modes} plus all 512 modes for one file. Non-trivial: >= 2 files of which some but not all carry an execute bit, or a non-default hooks-directory name with an executable file, or a catalogue / multi-start corpus case; distinct = distinct tree lines."
 	e := &c20Env{euid: os.Geteuid()}
 	e.okOut = c20Expand(c20GoodCfgs, false)
 	e.badOut = append(c20Expand(c20BadCfgs, false), c20Expand(c20BadRaw, true)...)
